@@ -9,6 +9,14 @@ TECH = "bounded symbolic execution of the Go SSA of /repo's working tree (own en
 checks = {
  "C01": ("generated parse() of each corpus grammar (real lox output, rebuilt every run) run on symbolic token sequences of every length up to the bound; per path the solver decides 'parse succeeded cleanly <=> CYK(reference CNF)(tokens)' for all token values at once. Bounds: n<=5 quick / n<=8 thorough. The grammar dimension is an enumerated corpus (27 items aimed at nullable/recursive/sugar mechanisms).",
          "corpus grammars only; reference CNF/CYK is mine and self-tested against a direct derivation search; token kinds range over the item's terminals"),
+ "C02": ("the generated PushRune/Reset/Token of each greedy lexer item driven by the real simplelexer (ReadToken/consume, bytes.Reader.ReadRune) over every input of up to 3 (thorough 5) arbitrary bytes, valid and invalid UTF-8; each recorded stretch is validated against a Glushkov position automaton built by my own parser of the documented lexer syntax: every consumed character keeps the run viable, the run cannot be extended, the effect is that of the earliest declared rule matching exactly that run, token type/text/position as defined. The engine's utf8.DecodeRune model is itself proved equal to the real function by the solver on every run.",
+         "rule sets are an enumerated corpus (15 items); Go's UTF-8 decoder shared by reference and implementation; comparison ends at the first ERROR token"),
+ "C07": ("as C02 on 11 mode/action items (nested, recursive, re-entering the default mode; every written order of @emit/@discard/@push_mode/@pop_mode): the reference follows the written actions on an explicit mode stack and each stretch is validated against the automaton of the reference's current mode; accumulated fragment text must start the next emitted token, and may not be dropped at EOF.",
+         "mode graphs and action orders are enumerated; pop on an empty stack ends the comparison (undocumented)"),
+ "C08": ("as C02 on 10 items of the documented non-greedy shape (prefix, *? or +? over a one-character expression, literal terminator; self-overlapping terminators, bodies containing terminator characters): a stretch must end at the first position where the non-greedy rule is completely matched and not before the run stops being extendable otherwise. Arbitrary bytes up to 2 (4), ASCII bytes up to 5 (7). The greedy-overlap item reports the known per-state finding.",
+         "non-greedy operators in other positions are outside the claim"),
+ "C11": ("H_Account on nullable-rule, accumulating-fragment, mode and greedy items: EOF/ERROR must be reached within 2*len+2 ReadToken calls and 3M interpreter steps each (overruns replayed natively under a time limit), token texts / discarded stretches / the error stretch must tile the input, and text pending in the accumulator at end of input must be reported, for every input of up to 3 (5) arbitrary bytes.",
+         "behaviour after the first ERROR token is outside (driver skips to end of line)"),
  "C03": ("generated parse()/_act() on symbolic token sequences with symbolic Discard() bits; on every accepting path the action log is checked by a derivation-tree checker (one call per user node, post-order, arguments identical to the child results / shifted tokens, sugar values as documented). n<=5 / n<=8.",
          "corpus grammars; uniqueness of the derivation tree rests on lox having accepted the grammar"),
  "C05": ("generated parsers of 14 operator tables on symbolic token sequences (n<=5 / n<=9): language equals the expression language and the action tree equals the tree of a precedence-climbing reference parser. The equal-level @right defect is reported as a known finding through a defect-model classifier.",
@@ -24,7 +32,7 @@ checks = {
 not_applicable = {
  "C14": "byte-for-byte comparison of one concrete computation with files on disk; no input a solver could range over (DESIGN.md section 5)",
 }
-pending = ["C02","C04","C06","C07","C08","C10","C11","C12","C13","C17","C18","C19"]
+pending = ["C04","C06","C10","C12","C13","C17","C18","C19"]
 
 def main():
     m = {
